@@ -129,6 +129,19 @@ func (u *Unit) loopHead(fr *Frame, ci *cfgInfo, b *ssa.BasicBlock, phis []*ssa.P
 			u.assume(cur.pc, Ge(v, IntLit(-1)))
 		}
 	}
+	// 2b. automatic frame invariant: whatever the loop does, objects that existed at function
+	// entry and are outside the function's modifies clause keep their entry value
+	// (checked on every back edge, and at entry trivially by the frame of the prefix)
+	if fr.top && fr.contract != nil && !fr.contract.Inline {
+		if goals, _, _, none := u.frameGoals(fr.fn, fr.contract, fr, fr.entry, in); !none && len(goals) > 0 {
+			u.oblige(in, "invariant", fname, fmt.Sprintf("autoframe%d@entry", n), "", And(goals...), nil)
+		}
+		if goals, _, _, none := u.frameGoals(fr.fn, fr.contract, fr, fr.entry, cur); !none {
+			for _, g := range goals {
+				u.assume(cur.pc, g)
+			}
+		}
+	}
 	// 3. assume invariants
 	env2 := u.invEnv(fr, b, cur, headVals)
 	for _, cl := range invs {
@@ -158,6 +171,11 @@ func (u *Unit) loopBackEdge(fr *Frame, ci *cfgInfo, from, to *ssa.BasicBlock, s 
 			break
 		}
 		vals[phi] = u.operand(fr, phi.Edges[pi]).T
+	}
+	if fr.top && fr.contract != nil && !fr.contract.Inline {
+		if goals, _, _, none := u.frameGoals(fr.fn, fr.contract, fr, fr.entry, s); !none && len(goals) > 0 {
+			u.oblige(s, "invariant", fname, fmt.Sprintf("autoframe%d@back%d", n, from.Index), "", And(goals...), nil)
+		}
 	}
 	env := u.invEnv(fr, to, s, vals)
 	for _, cl := range invs {
